@@ -24,6 +24,8 @@ FUNCS = {
         self=CH, props=['C14', 'C15'],
         requires=[('inits', 'self._sessinit_this is not None and self._sessinit_peer is not None', []),
                   ('open', 'not closed(self)', []),
+                  ('wire_values', 'self._sessinit_this.keepalive >= 0 and self._sessinit_peer.keepalive >= 0 and '
+                                  'self._sessinit_peer.segment_mru >= 0 and self._sessinit_peer.transfer_mru >= 0', []),
                   # the peer name is the textual address or host name given to connect(): never empty
                   ('peer_name_nonempty', 'length(self._peer_name) > 0', []),
                   ('timers_ok', 'timers_ok(self)', [])],
@@ -57,6 +59,9 @@ FUNCS = {
                              'contains(self._sess_parameters, "peer_nodeid") and '
                              'contains(self._sess_parameters, "peer_transfer_mru") and '
                              'contains(self._sess_parameters, "peer_segment_mru")', ['C14']),
+            ('numbers_are_wire_values', 'forall(k, "Str", implies(contains(self._sess_parameters, k) and '
+                                        'union_is(lookup(self._sess_parameters, k), "int"), '
+                                        'union_get(lookup(self._sess_parameters, k), "int") >= 0))', ['C18']),
             ('established_only_if_policy', 'implies(secured(self), establish_ok(self))', ['C15']),
         ],
     ),
@@ -64,6 +69,8 @@ FUNCS = {
         self=CH, props=['C09'],
         modifies=CLOSE_MODS,
         ensures=[('closed', 'closed(self)'),
+                 ('tls_socket_dropped', 'implies(not old(closed(self)), self._Connection__s_tls is None) and '
+                                        'implies(old(closed(self)), eqv(self._Connection__s_tls, old(self._Connection__s_tls)))', []),
                  ('only_unlistens', 'ghost.src_armed == ite(old(closed(self)), old(ghost.src_armed), '
                                     'old(unlistened(self, ghost.src_armed)))', []),
                  ('maps_kept', 'ghost.src_delay == old(ghost.src_delay) and ghost.src_cb == old(ghost.src_cb)', [])],
@@ -72,6 +79,8 @@ FUNCS = {
         self=CH, props=['C09', 'C14'],
         modifies=MCLOSE_MODS,
         ensures=[('closed', 'closed(self)'),
+                 ('tls_socket_dropped', 'implies(not old(closed(self)), self._Connection__s_tls is None) and '
+                                        'implies(old(closed(self)), eqv(self._Connection__s_tls, old(self._Connection__s_tls)))', []),
                  ('timers_cleared', 'self._keepalive_timer_id is None and self._idle_timer_id is None', ['C14']),
                  ('timers_disarmed', 'implies(old(self._keepalive_timer_id) is not None, '
                                      '  not contains(ghost.src_armed, unwrap(old(self._keepalive_timer_id)))) and '
@@ -83,6 +92,8 @@ FUNCS = {
         self=CH, props=['C09', 'C14'],
         modifies=MCLOSE_MODS,
         ensures=[('closed', 'closed(self)'),
+                 ('tls_socket_dropped', 'implies(not old(closed(self)), self._Connection__s_tls is None) and '
+                                        'implies(old(closed(self)), eqv(self._Connection__s_tls, old(self._Connection__s_tls)))', []),
                  ('timers_cleared', 'self._keepalive_timer_id is None and self._idle_timer_id is None', ['C14']),
                  ('timers_disarmed', 'implies(old(self._keepalive_timer_id) is not None, '
                                      '  not contains(ghost.src_armed, unwrap(old(self._keepalive_timer_id)))) and '
